@@ -249,6 +249,7 @@ SHARED = {
     "C04": [("c02", "r02_5_leap_decisions")],
     "C06": [("c04", "r04_8_queries_are_used"), ("c02", "r02_5_leap_decisions")],
     "C18": [("c12", "r12_2_3_eq_hash_fields")],
+    "C12": [("c09", "r09_12_months_between_is_checked_by_addition")],
     "C16": [("c01", "r01_11_trusted_packings")],
     "C09": [("c01", "r01_11_trusted_packings")],
     "C11": [("c03", "r03_11_trusted_instants")],
